@@ -162,12 +162,12 @@ def run(chk):
         N = rng.randint(1, 3)
         dt, start = rng.choice(DTS), rng.choice(STARTS)
         nenv = rng.choice([0, 0, 1, 1, 2])
-        pts = [rand_intpt(rng, d, N, maxbond=2, lo=-1, hi=1, trivial_prob=0.2) for _ in range(nenv)]
+        pts = [rand_intpt(rng, d, N, maxbond=2, lo=-1, hi=1, trivial_prob=0.2 if i % 2 else 0.0, last_trivial=(i % 2 == 0)) for _ in range(nenv)]
         steps = list(range(0, N + 1))
         hist = rand_history(rng, d2, 4, steps, dt, start, lo=-1, hi=1)
         props = [(gint(rng, (d2, d2), -1, 1), gint(rng, (d2, d2), -1, 1)) for _ in range(N)]
         rho0 = gint(rng, (d, d), -2, 2)
-        record_all = rng.random() < 0.8
+        record_all = rng.random() < 0.8 and i % 4 != 0
         sysm = InjSystem(d, props)
         ctrl = build_control(d, hist)
         try:
@@ -197,6 +197,29 @@ def run(chk):
                          "propagate' at every step (a control acts at another time, on another side of the measurement or of the propagation)",
                          {"kind": "compute_dynamics+control oracle", "d": d, "N": N, "nenv": nenv, "record_all": record_all, "dt": dt, "start": start,
                           "hist": [(k, p) for k, p, _ in hist]})
+        # the forward pass of compute_gradient_and_dynamics with the same Control object and the same record_all flag reports
+        # the same states (all of them / the final one only): the controls act there exactly as in compute_dynamics
+        if dyn is not None and nenv >= 1 and not any(p_.trivial for p_ in pts) and all(p_.mpos[-1].shape[1] == 1 for p_ in pts):
+            from harness.c08 import InjParamSystem
+            from oqupy.gradient import compute_gradient_and_dynamics
+            chk.search_cases += 1
+            chk.count("gradient_forward_pass_with_controls")
+            try:
+                dprops = [([gint(rng, (d2, d2), -1, 1)], [gint(rng, (d2, d2), -1, 1)]) for _ in range(N)]
+                _, gdyn = quiet(compute_gradient_and_dynamics, system=InjParamSystem(d, props, dprops), initial_state=rho0.copy(),
+                                target_derivative=gint(rng, (d, d), -1, 1), process_tensors=[p.build() for p in pts], parameters=np.zeros((2 * N, 1)),
+                                start_time=start, dt=dt, num_steps=N, control=build_control(d, hist), record_all=record_all, progress_type="silent")
+                same_ = len(gdyn.states) == len(dyn.states) and all(np.array_equal(np.array(a_), np.array(b_)) for a_, b_ in zip(gdyn.states, dyn.states)) \
+                    and list(gdyn.times) == list(dyn.times)
+            except Exception as ex:
+                same_ = False
+                chk.fail("gradient-forward-pass-raises", f"compute_gradient_and_dynamics with a Control raises {ex!r}", {"d": d, "N": N, "record_all": record_all})
+            else:
+                if not same_:
+                    chk.fail("control-misplaced-in-gradient", f"compute_gradient_and_dynamics(control=..., record_all={record_all}) reports states / times different from "
+                             "compute_dynamics with the same propagators, process tensors and Control object",
+                             {"kind": "gradient forward pass", "d": d, "N": N, "nenv": nenv, "record_all": record_all, "dt": dt, "start": start,
+                              "hist": [(k, p) for k, p, _ in hist]})
         pl = coq_list([f"({mat_lit(a)}, {mat_lit(b)})" for a, b in props])
         exprs.append(f"dyn_ctl {d2} {coq_list([p.coq(N) for p in pts])} {hist_lit(hist)} {float_lit(dt)} {float_lit(start)} "
                      f"{pl} {'true' if record_all else 'false'} {N} {vec_lit(rho0.reshape(-1))}")
